@@ -154,6 +154,9 @@ func findingProbes() []cell {
 		tmplMain("\tfor i := 0; i < 3; i++ {\n\t\tswitch i {\n\t\tcase 7:\n\t\t\t__F__Println(\"seven\")\n\t\tdefault:\n\t\t\tif i >= 1 {\n\t\t\t\tbreak\n\t\t\t}\n\t\t\t__F__Println(\"after if\")\n\t\t}\n\t\t__F__Printf(\"i=%d\\n\", i)\n\t}\n\t__F__Println(\"done\")\n"))
 	add("switch-default:jump", "continue inside an if inside a default clause",
 		tmplMain("\tfor i := 0; i < 3; i++ {\n\t\tswitch {\n\t\tdefault:\n\t\t\tif i >= 1 {\n\t\t\t\tcontinue\n\t\t\t}\n\t\t\t__F__Println(\"after if\")\n\t\t}\n\t\t__F__Printf(\"i=%d\\n\", i)\n\t}\n\t__F__Println(\"done\")\n"))
+	add("switch-default:return-call", "return of several values, the last one containing a conversion, inside a default clause",
+		"func __P__h(a int8, b string) (string, string, int8) {\n\tswitch len(b) / (-7) {\n\tcase 2:\n\t\t__F__Println(\"two\")\n\tdefault:\n\t\tif a >= int8(4) {\n\t\t\treturn b, b, a * int8(6)\n\t\t}\n\t}\n\treturn \"hello\", \"ego\", a\n}\n\n"+
+			tmplMain("\tp, q, r := __P__h(int8(5), \"abc\")\n\t__F__Printf(\"%s %s %d\\n\", p, q, r)\n"))
 	add("parallel-assign:in-for3-body", "a, b = b, a inside a three-clause for loop",
 		tmplMain("\ta := 1\n\tb := 2\n\tfor i := 0; i < 3; i++ {\n\t\ta, b = b, a\n\t\t__F__Printf(\"%d %d\\n\", a, b)\n\t}\n\tc := 5\n\td := 6\n\tfor i := 0; i < 3; i++ {\n\t\tc, d = d, c+d\n\t\t__F__Printf(\"%d %d\\n\", c, d)\n\t}\n"))
 	add("parallel-assign:before-for3-in-block", "a, b = b, a followed by a for loop in the same block",
@@ -194,6 +197,12 @@ func findingProbes() []cell {
 	add("multi-return:eval-order", "return e1, e2 evaluates e1 first",
 		"func __P__p(s string) float64 {\n\t__F__Println(s)\n\treturn 2.0\n}\n\nfunc __P__two() (float64, float64) {\n\treturn 1.0 - (__P__p(\"a\") * __P__p(\"b\")), __P__p(\"c\") / 0.5\n}\n\n"+
 			tmplMain("\tx, y := __P__two()\n\t__F__Printf(\"%v %v\\n\", x, y)\n"))
+	add("variadic-arg-const", "untyped constants as arguments of a variadic float32 parameter",
+		"func __P__v(base float32, xs ...float32) float32 {\n\tfor _, x := range xs {\n\t\tbase = base + x\n\t}\n\treturn base\n}\n\n"+
+			tmplMain("\t__F__Printf(\"%v\\n\", __P__v(float32(0.5), 1.5, 2.25))\n"))
+	add("variadic-arg-const", "untyped constants as arguments of a variadic int16 parameter",
+		"func __P__v(base int16, xs ...int16) int16 {\n\tfor _, x := range xs {\n\t\tbase = base + x\n\t}\n\treturn base\n}\n\n"+
+			tmplMain("\t__F__Printf(\"%v\\n\", __P__v(int16(32767), 1, 2))\n"))
 	add("variadic-param:as-slice-arg", "a variadic parameter passed on as a slice argument",
 		"func __P__n(xs []int8) int {\n\treturn len(xs)\n}\n\nfunc __P__v(va ...int8) int {\n\treturn __P__n(va) + 1\n}\n\n"+
 			tmplMain("\t__F__Printf(\"%d\\n\", __P__v(int8(1), int8(2)))\n"))
